@@ -289,7 +289,86 @@ impl Leg for Enum {
     }
 }
 
+// ---------------------------------------------------------------------------------------------
+// big outputs: the same relation with outputs next to 64 KiB, 1 MiB, 4 MiB, 8 MiB (16 MiB in the
+// thorough tier): a few records repeated many times, k up to 8, so that single batches and whole files
+// cross the sizes at which buffered writers, block-wise flushes and direct writes change behaviour
+
+#[derive(Clone, Debug, Serialize, Deserialize)]
+pub struct BigCase {
+    pub base: Case,
+    /// the record list of `base` is repeated until the output has about this many bytes
+    pub target_bytes: usize,
+    /// a long first record (bases): with limits between the record sizes a small batch precedes a big one
+    pub long_first: Option<usize>,
+}
+
+fn materialise_big(c: &BigCase) -> Case {
+    let mut out = c.base.clone();
+    let kcount = crate::model::closed_form_count(c.base.k) as usize;
+    let row = kcount * 9;
+    let want = (c.target_bytes / row).max(1);
+    let mut recs: Vec<Rec> = Vec::with_capacity(want + 1);
+    if let Some(l) = c.long_first {
+        let unit = c.base.recs.first().map(|r| r.seq.0.clone()).filter(|s| !s.is_empty()).unwrap_or_else(|| b"ACGTTGCA".to_vec());
+        recs.push(Rec { id: "long_first".into(), desc: None, seq: crate::util::Bytes(unit.iter().cycle().take(l).copied().collect()) });
+    }
+    let mut i = 0usize;
+    while recs.len() < want && !c.base.recs.is_empty() {
+        let r = &c.base.recs[i % c.base.recs.len()];
+        recs.push(Rec { id: format!("{}_{}", r.id, i), desc: r.desc.clone(), seq: r.seq.clone() });
+        i += 1;
+    }
+    out.recs = recs;
+    out
+}
+
+pub struct Big;
+impl Leg for Big {
+    type Case = BigCase;
+    const NAME: &'static str = "big-outputs";
+    fn strategy(tier: Tier) -> BoxedStrategy<BigCase> {
+        let targets: Vec<usize> = tier.pick(vec![64 << 10, 1 << 20, 4 << 20, 4 << 20, 8 << 20], vec![64 << 10, 1 << 20, 4 << 20, 8 << 20, 16 << 20, 32 << 20]);
+        (
+            prop_oneof![2 => 3usize..=5, 3 => 6usize..=7, 1 => Just(8usize)],
+            gen::threads_strategy(),
+            prop::sample::select(vec![Mem::OneRecord, Mem::ThreeRecords, Mem::Half, Mem::Max, Mem::Max]),
+            prop::bool::weighted(0.35),
+            any::<bool>(),
+            prop::bool::weighted(0.6),
+            prop::sample::select(vec![" ", ",", "\t"]),
+            prop::sample::select(targets),
+            (0usize..=40_000, prop_oneof![2 => Just(None), 1 => (1_000usize..=200_000).prop_map(Some)]),
+        )
+            .prop_flat_map(move |(k, threads, mem, mmap, norm0, header, delim, target, (slack, long_first))| {
+                let p = RecParams { max_records: 12, scale: 12, max_len: 60, degenerate_w: 1, bounds: [k, 0, 0], nuc_only: false };
+                let writer = if mmap { Writer::Mmap } else { Writer::Batch };
+                let norm = norm0 || mmap;
+                gen::records_in_container(p).prop_map(move |(mut recs, cont)| {
+                    if recs.is_empty() {
+                        recs.push(Rec { id: "r".into(), desc: None, seq: crate::util::Bytes(b"ACGTTGCAAGGCTTAACCGGTTACGATCG".to_vec()) });
+                    }
+                    let cont = if recs.iter().any(|r| r.seq.0.is_empty()) && cont.is_fastq() { Container::plain_fasta() } else { cont };
+                    let base = Case { recs, cont, k, threads, mem, writer, norm, header, delim: delim.to_string(), sched: Sched::Free };
+                    BigCase { base, target_bytes: target + slack, long_first }
+                })
+            })
+            .boxed()
+    }
+    fn check(c: &BigCase) -> Verdict {
+        let m = materialise_big(c);
+        let mut v = check_case(&m);
+        let out_bytes = m.recs.len() * crate::model::closed_form_count(m.k) as usize * 9;
+        v.class(match out_bytes { x if x >= (16 << 20) => "output>=16MiB", x if x >= (8 << 20) => "output>=8MiB", x if x >= (4 << 20) => "output>=4MiB", x if x >= (1 << 20) => "output>=1MiB", _ => "output>=64KiB" });
+        v.class_if(c.long_first.is_some(), "long-first-record");
+        v
+    }
+}
+
 pub fn run(ctx: &mut Ctx) {
+    let n = ctx.share(ctx.tier.pick(160, 3_200));
+    ctx.run_leg::<Big>(n, true, 16);
+
     let n = ctx.share(ctx.tier.pick(6_000, 100_000));
     ctx.run_leg::<Configs>(n, true, 300);
     let n = ctx.share(ctx.tier.pick(160, 3_000));
@@ -304,6 +383,7 @@ pub fn replay(leg: &str, case: &serde_json::Value) -> Option<Result<Verdict, Str
     match leg {
         "configs" => Some(crate::engine::replay_leg::<Configs>(case)),
         "sched-enum" => Some(crate::engine::replay_leg::<Enum>(case)),
+        "big-outputs" => Some(crate::engine::replay_leg::<Big>(case)),
         _ => None,
     }
 }
